@@ -330,7 +330,7 @@ impl FExhaust {
         if self.thorough {
             vec![0, 1, 2, 3, 4, 5, 7, 8, 9, 16, 100, 200, 250, 252, 253, 254, 255, 256, 257, 258, 300]
         } else {
-            vec![0, 1, 2, 3, 4, 8, 100, 253, 254, 255, 256, 257, 300]
+            vec![0, 1, 2, 3, 4, 5, 6, 8, 20, 30, 40, 50, 100, 244, 245, 246, 247, 248, 249, 250, 251, 252, 253, 254, 255, 256, 257, 300]
         }
     }
     fn configs(&self) -> Vec<CfgLite> {
@@ -359,7 +359,7 @@ impl FExhaust {
         }
         v
     }
-    const PROGRAMS: u64 = 14;
+    const PROGRAMS: u64 = 16;
 
     fn program(kind: u64, n: i64) -> Module {
         let rec = func(&["n"], vec![C::IfTrue(b(rv("n")), b(C::Return(b(add(call("f", vec![bin(BinOp::Sub, rv("n"), int(1))]), int(1)))))), C::Return(b(int(0)))]);
@@ -414,6 +414,29 @@ impl FExhaust {
                 "main",
                 func(&[], vec![sv("t", C::CreateTable), C::Repeat { n: b(int(n.min(60))), i: Some("i".into()), body: b(C::Append(b(bin(BinOp::Sub, int(100), rv("i"))), b(rv("t")))) }, sg("s", call("std.sorted", vec![rv("t")])), sg("m", call("std.min", vec![rv("t")]))]),
             )]),
+            // n locals, then a for-each (its hidden loop locals are created near the end of the stack)
+            14 => {
+                let mut cards: Vec<C> = (0..n).map(|j| sv(&format!("l{j}"), int(j))).collect();
+                cards.push(sv("t", C::CreateTable));
+                cards.push(C::Append(b(int(1)), b(rv("t"))));
+                cards.push(C::ForEach { i: Some("i".into()), k: Some("k".into()), v: Some("v".into()), iterable: b(rv("t")), body: b(sg("seen", rv("v"))) });
+                cards.push(sg("done", int(1)));
+                module(vec![("main", func(&[], cards))])
+            }
+            // recursion whose every level runs a for-each and a repeat with locals
+            15 => {
+                let f = func(
+                    &["n", "t"],
+                    vec![
+                        sv("pad", int(0)),
+                        C::ForEach { i: None, k: None, v: Some("v".into()), iterable: b(rv("t")), body: b(sv("pad", add(rv("pad"), rv("v")))) },
+                        C::Repeat { n: b(int(1)), i: Some("i".into()), body: b(sv("pad", add(rv("pad"), rv("i")))) },
+                        C::IfTrue(b(rv("n")), b(C::Return(b(add(call("f", vec![bin(BinOp::Sub, rv("n"), int(1)), rv("t")]), rv("pad")))))),
+                        C::Return(b(rv("pad"))),
+                    ],
+                );
+                module(vec![("main", func(&[], vec![sv("t", C::CreateTable), C::Append(b(int(1)), b(rv("t"))), sg("g", call("f", vec![int(n), rv("t")]))])), ("f", f)])
+            }
             // strings of length n*4 as table keys
             _ => {
                 let key: String = "k".repeat((n * 4) as usize);
